@@ -144,6 +144,15 @@ check("C10", "exploration",
       "objects reachable only from index/reflogs and gitlink targets are outside the statement; iteration gaps during a repack are counted, not judged; scheduler granularity = interposed Python-level calls",
       "DESIGN.md §5 C10")
 
+check("C06", "exploration",
+      "runtime reference-model monitor of receive-pack: generated command lists are pushed through the real ReceivePackHandler (scripted pkt-line client), by C git push against the dulwich TCP server, and by LocalGitClient; raw report-status lines and the server refs read back with git are compared with a sequential receive-pack model; racing pushers are interleaved by the deterministic scheduler",
+      "1200 (thorough 12000) scripted pushes: 1..3 commands over loose / packed / loose+packed / new / nested refs x old in {right, stale, zero-but-"
+      "exists, nonzero-but-absent} x new in {new commits, object already on server, delete, missing object, not in pack} x {atomic, side-band-64k, "
+      "ofs-delta}; git push [--atomic] [--force-with-lease right/stale] over git://; two pushers racing on one ref (handler and local paths, loose "
+      "and packed) under all schedules with <=2 preemptions. Oracle: ok <=> value, stale => untouched+rejected, targets exist, atomic all-or-none.",
+      "sequential receive-pack model; server refs read back with C git; hooks not exercised",
+      "DESIGN.md §5 C06")
+
 ALL = ["C%02d" % i for i in range(1, 21)]
 
 
